@@ -201,8 +201,10 @@ where
     };
     let mut res: SmallVec<[_; N_NODES_ON_STACK]> = SmallVec::new();
     let mut cur_byte_offset = 0usize;
-    let mut close_additional_paren = false;
-    let mut open_paren_count = 0;
+    // depth of parentheses in the text and the depths at which the additional
+    // parentheses of pending function-call-style binary operators have to be closed
+    let mut paren_depth = 0i64;
+    let mut depths_of_pending_calls: SmallVec<[i64; N_VARS_ON_STACK]> = SmallVec::new();
     for (i, c) in text.char_indices() {
         if c == ' ' && i == cur_byte_offset {
             cur_byte_offset += 1;
@@ -212,14 +214,14 @@ where
             if c == '(' {
                 cur_byte_offset += 1;
                 res.push(ParsedToken::<T>::Paren(Paren::Open));
-                open_paren_count += 1;
+                paren_depth += 1;
             } else if c == ')' {
                 cur_byte_offset += 1;
-                open_paren_count -= 1;
+                paren_depth -= 1;
                 res.push(ParsedToken::<T>::Paren(Paren::Close));
-                if close_additional_paren && open_paren_count == 0 {
+                if depths_of_pending_calls.last() == Some(&paren_depth) {
                     res.push(ParsedToken::Paren(Paren::Close));
-                    close_additional_paren = false;
+                    depths_of_pending_calls.pop();
                 }
             } else if c == ',' {
                 // this is for binary operators with function call syntax.
@@ -231,8 +233,7 @@ where
                     exerr!("could not find operator for comma, could be operator with more than 2 args (not supported), missing operator, or paren mismatch",)
                 })?;
                 let op_at_comma = mem::replace(&mut res[op_idx], ParsedToken::Paren(Paren::Open));
-                close_additional_paren = true;
-                open_paren_count = 1;
+                depths_of_pending_calls.push(paren_depth - 1);
                 res.push(ParsedToken::Paren(Paren::Close));
                 res.push(op_at_comma);
                 res.push(ParsedToken::Paren(Paren::Open));
@@ -245,18 +246,10 @@ where
                 let var_name = &text_rest[1..n_count];
                 cur_byte_offset += n_count + 1;
                 res.push(ParsedToken::Var(var_name));
-                if close_additional_paren && open_paren_count == 0 {
-                    res.push(ParsedToken::Paren(Paren::Close));
-                    close_additional_paren = false;
-                }
             } else if let Some(num_str) = is_numeric(text_rest) {
                 let n_bytes = num_str.len();
                 cur_byte_offset += n_bytes;
                 res.push(ParsedToken::<T>::Num(num_str.parse::<T>().map_err(to_ex)?));
-                if close_additional_paren && open_paren_count == 0 {
-                    res.push(ParsedToken::Paren(Paren::Close));
-                    close_additional_paren = false;
-                }
             } else if let Some((idx, op)) = find_ops(cur_byte_offset_tmp) {
                 let n_bytes = op.repr().len();
                 cur_byte_offset += n_bytes;
@@ -269,10 +262,6 @@ where
                 let n_bytes = var_str.len();
                 cur_byte_offset += n_bytes;
                 res.push(ParsedToken::<T>::Var(var_str));
-                if close_additional_paren && open_paren_count == 0 {
-                    res.push(ParsedToken::Paren(Paren::Close));
-                    close_additional_paren = false;
-                }
             } else {
                 return Err(exerr!("don't know how to parse {}", text_rest));
             }
